@@ -52,7 +52,7 @@ impl<R> Reader<R> {
     }
 //@end
 
-//@extract reader::Reader::read_event_impl | src/reader/mod.rs :: impl<R> Reader<R> :: fn read_event_impl | serves=C01,C02,C03,C04,C05,C08,C12,C16,C17,C18 expand=read_event_impl n11=1,2
+//@extract reader::Reader::read_event_impl | src/reader/mod.rs :: impl<R> Reader<R> :: fn read_event_impl | serves=C01,C02,C03,C04,C05,C08,C12,C16,C17,C18 expand=read_event_impl n11=@remove_utf8_bom,@detect_encoding,@skip_whitespace
     /// Read text into the given buffer, and return an event that borrows from
     /// either that buffer or from the input itself, based on the type of the
     /// reader.
